@@ -2400,6 +2400,15 @@ func (c *compiler) VisitAssignStmt(s *ast.AssignStmt) ast.VisitResult {
 		index = c.floatOrByteAsInt(index, indexTyp)
 		c.cbb.NewCall(c.ddpstring.replaceCharIrFun, lhs, rhs, index)
 	} else {
+		// a non-temporary value might be (a part of) the old value (Speichere x in x),
+		// so it has to be copied before the old value is freed
+		if !isTempRhs && !rhsTyp.IsPrimitive() {
+			dest := c.NewAlloca(rhsTyp.IrType())
+			c.deepCopyInto(dest, rhs, rhsTyp)
+			rhs, rhsTyp = c.scp.addTemporary(dest, rhsTyp)
+			isTempRhs = true
+		}
+
 		c.freeNonPrimitive(lhs, lhsTyp) // free the old value in the variable/list
 
 		// implicit cast to any if required
